@@ -702,6 +702,7 @@ pub fn preprocess_str<T: AsRef<Path>, U: AsRef<Path>, V: BuildHasher>(
                             path.as_ref(),
                             &defines,
                             include_paths,
+                            ignore_include,
                             strip_comments,
                             resolve_depth + 1,
                             include_depth,
@@ -763,6 +764,7 @@ pub fn preprocess_str<T: AsRef<Path>, U: AsRef<Path>, V: BuildHasher>(
                     path.as_ref(),
                     &defines,
                     include_paths,
+                    ignore_include,
                     strip_comments,
                     resolve_depth + 1,
                     include_depth,
@@ -977,6 +979,7 @@ fn resolve_text_macro_usage<T: AsRef<Path>, U: AsRef<Path>>(
     path: T,
     defines: &Defines,
     include_paths: &[U],
+    ignore_include: bool,
     strip_comments: bool,
     resolve_depth: usize,
     include_depth: usize,
@@ -1075,7 +1078,7 @@ fn resolve_text_macro_usage<T: AsRef<Path>, U: AsRef<Path>>(
                 path.as_ref(),
                 &defines,
                 include_paths,
-                false,
+                ignore_include,
                 strip_comments,
                 resolve_depth,
                 include_depth,
